@@ -152,6 +152,12 @@ impl C19 {
                                 mk,
                                 &|s: ElfSection| (s.section_type_raw(), s.start_address(), s.size(), s.flags().bits(), s.addralign()),
                                 4096, false);
+                            crate::iterproto::check_clone(
+                                ctx,
+                                "elf-sections",
+                                mk,
+                                &|s: ElfSection| (s.section_type_raw(), s.start_address(), s.size(), s.flags().bits(), s.addralign()),
+                                4096);
                         }
                     } else if c.n == 0 {
                         ctx.count("n=0:nothing-yielded");
